@@ -14,7 +14,7 @@ pub mod rust_decimal {
     pub mod prelude { pub use crate::shim::flat::{FromPrimitive, FromStr, ToPrimitive, Zero}; }
 }
 pub mod cw_storage_plus { pub use super::flat::{CwMap as Map, Item}; }
-pub mod semver { pub use super::flat::{Version, VersionReq, SemverError as Error}; }
+pub mod semver { pub use super::flat::{Version, VersionReq, Prerelease, BuildMetadata, SemverError as Error}; }
 pub mod uuid { pub use super::flat::{Uuid, UuidError as Error}; }
 pub mod serde_json { pub use super::flat::Error; pub use super::flat::json_to_string as to_string; }
 pub mod std_collections { pub use super::flat::HashSet; }
